@@ -352,9 +352,57 @@ pub fn run_check(replay: Option<Value>) -> i32 {
         out.sample = Some(desc);
         Some(out)
     });
+    // wherever xend falls relative to the step sequence: default options, 150 (600) end points per
+    // method and direction, also intervals that cross zero and end near it
+    {
+        let nx = if thorough { 600 } else { 150 };
+        let sdims = vec![
+            dim("method", &M6.iter().map(|m| mname(*m)).collect::<Vec<_>>()),
+            dim("direction", &["forward", "backward"]),
+            dim("x0", &[0.0, -3.0]),
+            dim("k", &(0..nx).collect::<Vec<_>>()),
+            dim("output", &["plain", "t_eval = [x0, mid, xend] + dense"]),
+        ];
+        lattice(&mut rep, "sweep", &sdims, only.as_deref(), |key, idx| {
+            let m = M6[idx[0]];
+            let dir = if idx[1] == 0 { 1.0 } else { -1.0 };
+            let x0 = [0.0, -3.0][idx[2]] * dir;
+            // x0 = 0: xend in [10, 15); x0 = -3: xend in (0, 0.6) — the landing x + (xend - x) is inexact there
+            let len = if idx[2] == 0 { 10.0 + 5.0 * idx[3] as f64 / nx as f64 } else { 3.0 + 0.004 * (idx[3] + 1) as f64 };
+            let xend = x0 + dir * len;
+            let p = problem(1, x0, dir * 2.0 * std::f64::consts::PI * 1.5 / 1.0);
+            let mut c = Cfg::new(m, x0, xend, &p.y0);
+            if idx[4] == 1 {
+                c.t_eval = Some(vec![x0, 0.5 * (x0 + xend), xend]);
+                c.dense = true;
+            }
+            c.budget = 3_000_000;
+            let r = run(&p, &c);
+            let mut out = CaseOut::default();
+            let mut vs = vec![];
+            let mut tags = vec![];
+            monitor(&c, &r, p.n, false, &mut vs, &mut tags);
+            let desc = json!({"key": key, "point": describe(&sdims, idx), "cfg": c.json(&p.name), "outcome": r.outcome_name(),
+                "t_tail": r.sol().map(|s| s.t.iter().rev().take(4).rev().copied().collect::<Vec<_>>()), "call_range": [r.st.tmin, r.st.tmax]});
+            for (k, msg) in vs {
+                out.violations.push(Violation::new(key, &k, msg, desc.clone()).with("method", mname(m)).with("span", "sweep").with("first_step", "None").with("t_eval", idx[4] == 1).with("events", "None").with("status", r.outcome_name()));
+            }
+            if r.sol().map(|s| s.status != Status::Success).unwrap_or(true) {
+                out.violations.push(Violation::new(key, "sweep-outcome", format!("default run over [{:e},{:e}] ended with {}", x0, xend, r.outcome_name()), desc.clone()).with("method", mname(m)).with("span", "sweep"));
+            }
+            out.tag("xend-sweep");
+            out.events = r.st.n_ode;
+            out.validated = 1;
+            let mut h = r.st.fp;
+            h.s(key);
+            out.fp = Some(h.as_u128());
+            out.sample = Some(desc);
+            Some(out)
+        });
+    }
     if only.is_none() {
         rep.violations.extend(regress::violations_for("C03"));
-        for t in ["success", "terminal-stop", "inf-span", "tiny-span", "first-step-covers-span", "max-step-divides-span", "rk4-sign-rule"] {
+        for t in ["success", "terminal-stop", "inf-span", "tiny-span", "first-step-covers-span", "max-step-divides-span", "rk4-sign-rule", "xend-sweep"] {
             rep.require(t, 10);
         }
     } else {
